@@ -85,6 +85,9 @@ func (s *Server) cmdFollow(msg *Message) (res resp.Value, err error) {
 	s.config.write(false)
 	if update {
 		s.followc.Add(1)
+		// "caught up once" was earned against the previous leader: reads
+		// must wait again until the new leader's data has been loaded
+		s.fcupflags.Store(0)
 		if s.config.followHost() != "" {
 			log.Infof("following new host '%s' '%s'.", host, sport)
 			go s.follow(s.config.followHost(), s.config.followPort(),
